@@ -56,14 +56,13 @@ macro_rules! impl_derivatives {
                 } else if (n - F::one() - F::one()).abs() < F::epsilon() {
                     self * self
                 } else {
-                    let n1 = n - F::one();
-                    let n2 = n1 - F::one();
-                    let n3 = n2 - F::one();
-                    let pow3 = self.re.powf(n3);
-                    let f0 = pow3.clone() * &self.re * &self.re * &self.re;
-                    let f1 = pow3.clone() * &self.re * &self.re * n;
-                    second!($deriv, let f2 = pow3.clone() * &self.re * n * n1;);
-                    third!($deriv, let f3 = pow3 * n * n1 * n2;);
+                    // raise the real part to n minus the order of the number, so that no
+                    // 0 * inf arises at zero whenever all required derivatives are finite
+                    let powo = self.re.powf(n - F::from($nderiv).unwrap());
+                    let f0 = powo.clone() * &self.re;
+                    let f1 = powo.clone() * n;
+                    second!($deriv, let n1 = n - F::one(); let f0 = f0 * &self.re; let f1 = f1 * &self.re; let f2 = powo.clone() * n * n1;);
+                    third!($deriv, let n2 = n1 - F::one(); let f0 = f0 * &self.re; let f1 = f1 * &self.re; let f2 = f2 * &self.re; let f3 = powo.clone() * n * n1 * n2;);
                     chain_rule!($deriv, Self::chain_rule(self, f0, f1, f2, f3))
                 }
             }
